@@ -118,4 +118,11 @@ def LexTables.std : LexTables where
 
 abbrev LexErr := Loc × String
 
+/-- `Except` has no `DecidableEq` in core; needed to state closed examples by `decide` -/
+instance instDecidableEqExcept {ε α} [DecidableEq ε] [DecidableEq α] : DecidableEq (Except ε α)
+  | .ok a, .ok b => if h : a = b then isTrue (h ▸ rfl) else isFalse (fun e => h (Except.ok.inj e))
+  | .error a, .error b => if h : a = b then isTrue (h ▸ rfl) else isFalse (fun e => h (Except.error.inj e))
+  | .ok _, .error _ => isFalse (fun e => nomatch e)
+  | .error _, .ok _ => isFalse (fun e => nomatch e)
+
 end ExprModel.Lex
